@@ -49,6 +49,27 @@ CLAIMED["C05"] = dict(
    note=TB + "Modelled, not verified: struct float packing, str(float), Python codecs, datetime arithmetic of timedelta normalisation (compared differentially).",
    design="DESIGN.md section 4, C05")
 
+CLAIMED["C06"] = dict(
+   technique="Lean 4 proof (lexer round trip of the rendered literal, compositional single-pass substitution law, template-grammar theorem, parameter-block decoding round trip) + extracted regex/escape facts + differential execution",
+   text="Theorems in lean/MimicProps/C06.lean: every string value rendered as a literal lexes back to itself and ends exactly at its closing quote "
+        "(for every escape table with \\\\ -> \\); substitution is a single pass (interp (a++b) = interp a then interp b on the left-over values), "
+        "leaves placeholder-free text unchanged and consumes exactly phCount values; on the property's template grammar it replaces exactly "
+        "the ? outside quoted runs (named _partial: mixed quote kinds inside one literal are outside the quantifier); _read_params decodes any "
+        "client-encoded block (NULL bitmap, all integer widths/signedness, strings) and long data concatenates in send order. Tie: regex source, "
+        "escape replacements, single-pass call shape and string type set re-extracted; real prepare/long-data/execute (incl. failing "
+        "applications, repeated executions) compared with the model; tokenizer oracle on the SQL the application receives.",
+   note=TB + "Modelled, not verified: Python re (only the fragment REGEX_PARAM uses is given a semantics), sqlglot's tokenizer (oracle), str(float).",
+   design="DESIGN.md section 4, C06")
+CLAIMED["C17"] = dict(
+   technique="Lean 4 proof (round trip client encoding -> parse_com_query / parse_com_stmt_execute, dict semantics, independence of SQL from attributes) + differential execution",
+   text="Theorems in lean/MimicProps/C17.lean: with the capability, the payload a client builds from any attribute list and SQL text parses to "
+        "exactly that text and mapping (dict semantics; identity for distinct names); without it the whole payload is the SQL text and the mapping "
+        "is empty for every payload; for execute the first numParams entries are bound and the rest is the mapping, and the SQL depends only on the "
+        "positional values. Tie: real connection driven with attribute lists of 0..17 entries of all kinds, 0..8 parameters, SQL starting with "
+        "0x00-0x02, both capability settings, compared with the model; oracle on what the application received.",
+   note=TB + "Modelled, not verified: codec (utf8 in these runs), struct float unpacking (bit patterns compared).",
+   design="DESIGN.md section 4, C17")
+
 REASON_PENDING = "check not built yet (work in progress; see DESIGN.md section 9)"
 
 m = {
